@@ -198,6 +198,19 @@ def run(ctx):
             ys = [rng.choice([0, 1, 2, 5, 8, 10]) for _ in range(rng.randint(1, 30))]
             w = IndentationRater.compute_sample_weight(None, np.array(ys, dtype=float))
             weights_oracle(ctx, ys, w)
+            # ratings are integers: the element type of the response array must not matter
+            for dt in (int, np.int8, np.float32):
+                try:
+                    wi = IndentationRater.compute_sample_weight(None, np.array(ys, dtype=dt))
+                    same = np.allclose(np.asarray(wi, dtype=float), w, rtol=1e-6, atol=0)
+                except BaseException as e:  # noqa
+                    wi, same = repr(e), False
+                if not same:
+                    ctx.violation(f"weights-depend-on-dtype:{np.dtype(dt).name}",
+                                  f"compute_sample_weight for the ratings {ys} as {np.dtype(dt).name}: "
+                                  f"{wi if isinstance(wi, str) else np.asarray(wi).tolist()[:8]} instead of "
+                                  f"{w.tolist()[:8]}", {"input": {"ratings": ys, "dtype": np.dtype(dt).name}})
+                    break
             ctx.case({"weights": ys}, nontrivial="w:" + json.dumps(ys) if len(set(ys)) > 1 else None,
                      bucket="stream=weights")
             wl.append({"op": "weights", "ys": ys})
